@@ -41,11 +41,49 @@ def snapshot(seq):
                 slm=(repr(seq._slm_mask_targets), seq._slm_mask_dmm), variables=sorted(seq._variables))
 
 
+def _only_appended_delays(before, after, channels):
+    """the two snapshots differ only by delay slots appended to the given channels."""
+    for k in before:
+        if k != "schedule" and before[k] != after[k]:
+            return False
+    for name, b in before["schedule"].items():
+        a = after["schedule"].get(name)
+        if a is None:
+            return False
+        if a == b:
+            continue
+        if name not in channels or a["eom"] != b["eom"] or a["slots"][: len(b["slots"])] != b["slots"]:
+            return False
+        extra = a["slots"][len(b["slots"]):]
+        if not extra or any(not (x[0] == "delay" or (isinstance(x[0], (tuple, list)) and x[0][0] == "pulse" and "ConstantWaveform" in str(x[0][3]))) for x in extra):
+            return False
+    return set(after["schedule"]) == set(before["schedule"])
+
+
 def classify_known(prop, msg, op, cfg, before, after, known):
+    """A failure is a listed finding only if it lies in that finding's witness class (concrete form)."""
     for k in known:
         pat = k.get("concrete_pattern")
-        if pat and pat in msg:
-            return k["id"]
+        if not (pat and pat in msg):
+            continue
+        kid = k["id"]
+        if kid == "KF-C01-1":
+            ch = cfg["channels"].get(op[2]) if op and len(op) > 2 else None
+            if ch and ch["max_duration"] is not None and ch["max_duration"] % ch["clock_period"] != 0:
+                import harness
+                d = harness.make_pulse(op[1]).duration
+                if d <= ch["max_duration"]:
+                    return kid
+        elif kid in ("KF-C09-1", "KF-C09-2"):
+            name = op[2]
+            b, a = before["schedule"].get(name), after["schedule"].get(name)
+            if b and a and len(a["slots"]) == len(b["slots"]) + 1 and _only_appended_delays(before, after, [name]) and (kid != "KF-C09-2" or op[3]):
+                return kid
+        elif kid == "KF-C09-3":
+            if _only_appended_delays(before, after, list(op[1])):
+                return kid
+        else:
+            return kid
     return None
 
 
